@@ -103,6 +103,10 @@ func (f *frame) combine(c *T, a, b outcome, at ast.Node) outcome {
 		if k == oContinue {
 			return oNormal
 		}
+		if k == oBreak && f.brkSwitch {
+			// the end of a switch clause, reached early
+			return oNormal
+		}
 		return k
 	}
 	if norm(ka) != norm(kb) {
@@ -112,6 +116,9 @@ func (f *frame) combine(c *T, a, b outcome, at ast.Node) outcome {
 	out := outcome{kind: ka, env: mergeEnv(c, a.env, b.env)}
 	if ka == oNormal && kb == oContinue || ka == oContinue {
 		out.kind = oContinue
+	}
+	if f.brkSwitch && (ka == oBreak || kb == oBreak) {
+		out.kind = oBreak
 	}
 	if ka == oReturn {
 		switch {
@@ -341,7 +348,10 @@ func (f *frame) runLoopBody(kind string, space []*T, body []ast.Stmt, at ast.Nod
 	if bind != nil {
 		bind()
 	}
+	savedBrk := f.brkSwitch
+	f.brkSwitch = false
 	out := f.execList(body)
+	f.brkSwitch = savedBrk
 	if out.kind == oReturn || out.kind == oBreak {
 		f.E.fail(f.fn, at, "return/break inside an encoder loop: unsupported")
 	}
@@ -539,8 +549,11 @@ func (f *frame) execTypeSwitch(s *ast.TypeSwitchStmt) {
 		if obj := f.info.Implicits[cc]; obj != nil {
 			f.env[obj] = tVar("$t:" + name)
 		}
+		savedBrk := f.brkSwitch
+		f.brkSwitch = true
 		out := f.execList(cc.Body)
-		if out.kind != oNormal {
+		f.brkSwitch = savedBrk
+		if out.kind != oNormal && out.kind != oBreak {
 			f.E.fail(f.fn, cc, "clause of a type switch leaves the function: unsupported")
 		}
 		panics := false
